@@ -341,6 +341,12 @@ class RegexParser:
                     # Treat '-' as literal at end
                     ranges.append((start, start))
                     ranges.append(("-", "-"))
+                elif len(start) == 2 and start[0] == "\\" or len(end) == 2 and end[0] == "\\":
+                    # A class escape (\\d, \\w ...) is not the end point of a range: the
+                    # class holds it, the '-' and the other atom
+                    ranges.append((start, start))
+                    ranges.append(("-", "-"))
+                    ranges.append((end, end))
                 else:
                     ranges.append((start, end))
             else:
